@@ -391,6 +391,21 @@ func (w *World) OpenApp(channel string, expect func(off int) byte) *Endpoint {
 	return ep
 }
 
+// OpenAppIO is OpenApp through the real InputOutputListener.Start (the listener kind used for
+// `--listen name~stdin://`): the application side is the listener's standard-stream pair.
+func (w *World) OpenAppIO(channel string, expect func(off int) byte) (*Endpoint, error) {
+	a, b := netsim.Pipe(netsim.Addr{Net: "mem", Str: "app"}, netsim.Addr{Net: "mem", Str: "stdio-listener-" + channel}, w.Opt.AppBuf)
+	w.Track(b, "listener-side of app connection")
+	w.mu.Lock()
+	idx := len(w.Apps)
+	ep := NewEndpoint(a, fmt.Sprintf("app[%d:%s:io]", idx, channel), expect, w.Opt.Keep)
+	w.Apps = append(w.Apps, ep)
+	w.mu.Unlock()
+	l := &listener.InputOutputListener{InputOutput: b}
+	l.Name = channel
+	return ep, l.Start(w.Ups, certGetter{&w.CliCfg})
+}
+
 func (w *World) HandledCount() int {
 	w.mu.Lock()
 	defer w.mu.Unlock()
